@@ -322,22 +322,38 @@ func ingest(sv *server, ds *dataset, r *gen.Rand) error {
 
 // waitVisible polls until the server returns as many samples as were written (count_over_time over the whole span).
 func waitVisible(sv *server, ds *dataset) error {
-	want := 0
+	// every written sample but the staleness markers is counted by count_over_time; an engine that also hides NaN / Inf
+	// values must not dead-lock the run: accept any count in [finite, all non-stale] that is stable over two polls
+	lo, hi, total := 0, 0, 0
 	for _, s := range ds.Series {
-		want += len(s.Samples)
+		for _, p := range s.Samples {
+			total++
+			if isStale(p.V) {
+				continue
+			}
+			hi++
+			if !math.IsNaN(p.V) && !math.IsInf(p.V, 0) {
+				lo++
+			}
+		}
 	}
 	end := baseMs + ds.SpanMs + 600000
 	q := fmt.Sprintf(`sum(count_over_time({__name__=~".+"}[%dms]))`, ds.SpanMs+1200000)
 	var last string
+	prev := -1
 	for i := 0; i < 100; i++ {
 		r := sv.instant(ds.DB, q, end)
-		if r.Err == "" && len(r.Series) == 1 && len(r.Series[0].Pts) == 1 && int(r.Series[0].Pts[0].V) == want {
-			return nil
+		if r.Err == "" && len(r.Series) == 1 && len(r.Series[0].Pts) == 1 {
+			got := int(r.Series[0].Pts[0].V)
+			if got == hi || (got >= lo && got <= total && got == prev) {
+				return nil
+			}
+			prev = got
 		}
 		last = fmt.Sprintf("%+v", r)
 		time.Sleep(200 * time.Millisecond)
 	}
-	return fmt.Errorf("written samples not visible: want %d, last answer %s", want, trunc(last, 300))
+	return fmt.Errorf("written samples not visible: want %d..%d, last answer %s", lo, hi, trunc(last, 300))
 }
 
 // case generation -------------------------------------------------------------------------------------------
@@ -633,6 +649,19 @@ func runCase1(n int, di int, ds *dataset, u *upstream, sv *server, e exprCase, m
 			co.Up, co.Sv = toJ(up), toJ(svr)
 			ok, ex := explainDiff(ds, &e, "instant", t, t, 0, svr, func(x string) result { return u.instant(x, t) })
 			co.Explain = ex
+			if !ok && hasMatrixSelector(e.Expr) {
+				// staleness markers: today's instant path drops a series whose window ends in a marker
+				rewritten, rules, _, _ := rewriteCurrent(e.Expr, ds, 0)
+				if hit, which := staleExplainsInstant(ds, []string{e.Expr, rewritten}, t, svr); hit {
+					ok = true
+					ex = &explain{Rules: []string{fStaleEnd}}
+					if which != e.Expr {
+						ex.Rewritten = rewritten
+						ex.Rules = append(rules, fStaleEnd)
+					}
+					co.Explain = ex
+				}
+			}
 			if ok {
 				co.Known = ex.Rules
 			} else {
@@ -685,6 +714,8 @@ func runCase1(n int, di int, ds *dataset, u *upstream, sv *server, e exprCase, m
 				co.Known = addRule(co.Known, fStepGtRange)
 			case hasVectorVectorBinop(e.Expr) && fromSv.Err == "" && extraPointsOnly(fromSv, svr):
 				co.Known = addRule(co.Known, fBinopNext)
+			case hasMatrixSelector(e.Expr) && fromSv.Err == "" && staleExplainsSteps(ds, u, &e, steps, si, svr):
+				co.Known = addRule(co.Known, fStaleEnd)
 			default:
 				co.Unexplained = true
 			}
@@ -719,6 +750,65 @@ func runCase1(n int, di int, ds *dataset, u *upstream, sv *server, e exprCase, m
 		co.UpRiDiff = cmpResults(up, rangeFromInstants(steps, ui))
 	}
 	return co
+}
+
+// staleExplainsSteps: the server's range answer is right where its instant answers are wrong - at every step the
+// server's instant answer equals upstream's answer over the data set without the series whose window ends in a
+// staleness marker (some step must drop a series), and the range answer equals the sequence of upstream's instant
+// answers wherever the two server answers differ.
+func staleExplainsSteps(ds *dataset, u *upstream, e *exprCase, steps []int64, si []result, svr result) bool {
+	rewritten, _, _, _ := rewriteCurrent(e.Expr, ds, 0)
+	cands := []string{e.Expr, rewritten}
+	hitAny := false
+	for i, x := range steps {
+		if _, n := dropStaleEnded(ds, e.Expr, x); n == 0 {
+			continue
+		}
+		hit, _ := staleExplainsInstant(ds, cands, x, si[i])
+		if !hit {
+			// the marker may be irrelevant for this step's answer: then the plain upstream answer must match
+			ok := false
+			for _, c := range cands {
+				if up := u.instant(c, x); up.Err == "" && cmpResults(up, si[i]) == "" {
+					ok = true
+				}
+			}
+			if !ok {
+				return false
+			}
+			continue
+		}
+		hitAny = true
+	}
+	if !hitAny {
+		return false
+	}
+	// steps without a stale-ended series must agree between the two server answers
+	var clean []int64
+	var cleanRes []result
+	for i, x := range steps {
+		if _, n := dropStaleEnded(ds, e.Expr, x); n == 0 {
+			clean = append(clean, x)
+			cleanRes = append(cleanRes, si[i])
+		}
+	}
+	keep := map[int64]bool{}
+	for _, x := range clean {
+		keep[x] = true
+	}
+	sub := result{Kind: svr.Kind}
+	for _, s := range svr.Series {
+		ns := rseries{Labels: s.Labels}
+		for _, p := range s.Pts {
+			if keep[p.T] {
+				ns.Pts = append(ns.Pts, p)
+			}
+		}
+		if len(ns.Pts) > 0 {
+			sub.Series = append(sub.Series, ns)
+		}
+	}
+	return cmpResults(rangeFromInstants(clean, cleanRes), sub) == ""
 }
 
 func genTiming(r *gen.Rand, ds *dataset, all []int64, ge map[string][]int64, e *exprCase) (mode string, t, start, end, step int64, hit bool) {
@@ -812,7 +902,9 @@ func runAll(sv *server, nds, ncases int, corpus []string) int {
 	}
 	for di := 0; di < nds; di++ {
 		dense := di%4 == 3
-		ds := genDataset(r.Fork(), fmt.Sprintf("prom%d", di), dense)
+		// one data set in four carries NaN / +Inf / -Inf values and staleness markers
+		special := di%4 == 1 || os.Getenv("C18_SPECIAL") != ""
+		ds := genDataset(r.Fork(), fmt.Sprintf("prom%d", di), dense, special)
 		if len(ds.Series) == 0 {
 			continue
 		}
